@@ -31,8 +31,10 @@ theorem reader_sees_complete (h : Reachable eqv s) (t n : Nat) (hl : loadedCount
   have hi := reachable_inv h
   have hp := hi.pcs t
   have hn : n ≤ s.count := by
-    cases hpc : (s.thr t).pc <;> rw [hpc] at hl hp <;> simp only [loadedCount, Option.some.injEq] at hl <;>
-      first | cases hl | (subst hl; simp only [PcInv] at hp; first | exact hp | exact hp.1)
+    cases hpc : (s.thr t).pc <;> rw [hpc] at hl hp <;> simp only [loadedCount] at hl <;> try (cases hl)
+    all_goals (simp only [PcInv] at hp)
+    · exact hp
+    · exact hp.1
   obtain ⟨o, ho, hc⟩ := tbl_cell hi (i := m) (by omega)
   exact ⟨o, hc, rfl, ho⟩
 
@@ -45,23 +47,15 @@ theorem getSlot_never_torn (h : Reachable eqv s) (t : Nat) (i : Int) (n : Nat) (
   have hr := hi.logs t _ _ hd
   simp only [ResOK] at hr
   obtain ⟨hn, hc⟩ := hr
-  unfold Spec.atSlot at hc
-  split at hc
-  · rename_i h0
-    rw [List.getElem?_take] at hc
-    split at hc
-    · rename_i hlt
-      cases ho : s.tbl[i.toNat]? with
-      | none => simp [ho] at hc
-      | some o =>
-        simp only [ho] at hc
-        split at hc
-        · simp at hc
-        · simp only [Option.map_some, Option.some.injEq] at hc
-          refine ⟨h0, hlt, by rw [← hi.len]; exact hn, o, hc, by rw [hc]; rfl, ?_⟩
-          rw [hc]; exact hi.cells _ _ ho
-    · simp at hc
-  · simp at hc
+  cases hat : Spec.atSlot (s.tbl.take n) i with
+  | none => rw [hat] at hc; cases hc
+  | some o =>
+    rw [hat] at hc
+    simp only [Option.map_some, Option.some.injEq] at hc
+    obtain ⟨h0, hget, _⟩ := Spec.atSlot_some hat
+    obtain ⟨hlt, ho⟩ := getElem?_take_some hget
+    refine ⟨h0, hlt, by rw [← hi.len]; exact hn, o, hc, by rw [hc]; rfl, ?_⟩
+    rw [hc]; exact hi.cells _ _ ho
 
 /-- (a)+(f) for completed key lookups: `GetByKey` returns a complete registered object stored in the
     returned slot, whose key matches the query. -/
@@ -74,21 +68,15 @@ theorem getKey_never_torn (h : Reachable eqv s) (t : Nat) (k : String) (n j : Na
   simp only [ResOK] at hr
   obtain ⟨hn, hc⟩ := hr
   cases hlk : Spec.lookup (s.tbl.take n) k with
-  | none => rw [hlk] at hc; simp at hc
+  | none => rw [hlk] at hc; cases hc
   | some p =>
     obtain ⟨j', o⟩ := p
     rw [hlk] at hc
     simp only [Option.map_some, Option.some.injEq, Prod.mk.injEq] at hc
     obtain ⟨rfl, rfl⟩ := hc
-    unfold Spec.lookup at hlk
-    split at hlk
-    · cases hlk
-    · obtain ⟨_, h2, h3, _, _⟩ := Spec.scanKey_some hlk
-      simp only [Nat.sub_zero, List.getElem?_take] at h2
-      split at h2
-      · rename_i hjn
-        exact ⟨hjn, by rw [← hi.len]; exact hn, o, rfl, rfl, hi.cells _ _ h2, h3⟩
-      · cases h2
+    obtain ⟨_, hget, hk, _⟩ := Spec.lookup_some hlk
+    obtain ⟨hjn, ho⟩ := getElem?_take_some hget
+    exact ⟨hjn, by rw [← hi.len]; exact hn, o, rfl, rfl, hi.cells _ _ ho, hk⟩
 
 /-- (b) Keys are unique (case-insensitively) among the registered slots — stated on the concrete memory. -/
 theorem keys_unique (h : Reachable eqv s) (i j : Nat) (hi : i < s.count) (hj : j < s.count) (ci cj : Cell)
@@ -129,12 +117,13 @@ theorem writers_exclusive (h : Reachable eqv s) (t u : Nat) (ht : 0 < (s.thr t).
 
 /-- (e) Slots are stable: along every continuation of the execution `count` never decreases and a
     registered slot never moves or changes. -/
-theorem slots_stable (h : Reachable eqv s) : ∀ (sched : List Nat),
-    s.count ≤ (run eqv s sched).count ∧ ∀ i, i < s.count → cellAt (run eqv s sched).mem i = cellAt s.mem i
-  | [] => ⟨Nat.le_refl _, fun _ _ => rfl⟩
-  | t :: ts => by
+theorem slots_stable (h : Reachable eqv s) (sched : List Nat) :
+    s.count ≤ (run eqv s sched).count ∧ ∀ i, i < s.count → cellAt (run eqv s sched).mem i = cellAt s.mem i := by
+  induction sched generalizing s with
+  | nil => exact ⟨Nat.le_refl _, fun _ _ => rfl⟩
+  | cons t ts ih =>
     have hs' : Reachable eqv (step eqv s t) := Reachable.step t h
-    obtain ⟨h1, h2⟩ := slots_stable hs' ts
+    obtain ⟨h1, h2⟩ := ih hs'
     have hi := reachable_inv h
     have hi' := reachable_inv hs'
     have hstep : s.count ≤ (step eqv s t).count ∧ ∀ i, i < s.count → cellAt (step eqv s t).mem i = cellAt s.mem i := by
@@ -242,28 +231,25 @@ theorem lookup_agree (h : Reachable eqv s) (t t' : Nat) (k : String) (n j n' : N
   obtain ⟨hn', hc'⟩ := hr
   have hlt : j < s.tbl.length := by omega
   obtain ⟨o', ho'⟩ := getElem?_of_lt hlt
-  have := hi.cells j o' ho'
-  rw [hc] at this; cases this
+  have hoo := hi.cells j o' ho'
+  rw [hc] at hoo
+  have hoo' : o = o' := Cell.full_inj (Option.some.inj hoo)
+  subst hoo'
   -- the key of a found object is not empty
   have hne : o.key ≠ "" := by
     have hr2 := hi.logs t _ _ hk
     simp only [ResOK] at hr2
     obtain ⟨_, hc2⟩ := hr2
     cases hlk : Spec.lookup (s.tbl.take n) k with
-    | none => rw [hlk] at hc2; simp at hc2
+    | none => rw [hlk] at hc2; cases hc2
     | some p =>
       obtain ⟨j2, o2⟩ := p
       rw [hlk] at hc2
       simp only [Option.map_some, Option.some.injEq, Prod.mk.injEq] at hc2
       obtain ⟨rfl, hcc⟩ := hc2
-      have : o = o2 := by
-        simp only [Cell.full, Cell.mk.injEq, Option.some.injEq] at hcc
-        cases o; cases o2; simp_all
-      subst this
-      unfold Spec.lookup at hlk
-      split at hlk
-      · cases hlk
-      · exact (Spec.scanKey_some hlk).2.2.2.1
+      have e2 : o = o2 := Cell.full_inj hcc
+      subst e2
+      exact (Spec.lookup_some hlk).2.2.2
   rw [hc']
   simp [Spec.atSlot, List.getElem?_take, hj, ho', hne]
 
